@@ -181,9 +181,22 @@ class Ctx:
 
     # ------------------------------------------------------------ Coq
     def _lock(self):
-        f = open(os.path.join(VERIF, ".coq.lock"), "w")
-        fcntl.flock(f, fcntl.LOCK_EX)
-        return f
+        """lock every coq/ directory this property's files live in or depend on (sorted order, so two
+        checks can never wait for each other in a cycle); unrelated properties build concurrently"""
+        dirs = sorted(set(["Common", self.pid] + list(self.extra_dirs)))
+
+        class _L:
+            def __init__(s, names):
+                s.fs = []
+                for n in names:
+                    f = open(os.path.join(VERIF, ".coq.lock." + n), "w")
+                    fcntl.flock(f, fcntl.LOCK_EX)
+                    s.fs.append(f)
+
+            def close(s):
+                for f in reversed(s.fs):
+                    f.close()
+        return _L(dirs)
 
     def coq_make(self, targets, timeout=1500, remove=(), clean_dirs=()):
         """build targets with a per-property Makefile (Common + this property's directories) under the tree lock;
